@@ -23,12 +23,14 @@ func newWrappedNode(substrate ipld.Node) (LargeBytesNode, error) {
 
 	if ufd.Data.Exists() {
 		return &singleNodeFile{
-			Node: ufd.Data.Must(),
+			Node:      ufd.Data.Must(),
+			substrate: substrate,
 		}, nil
 	}
 
 	// an empty degenerate one.
 	return &singleNodeFile{
-		Node: basicnode.NewBytes(nil),
+		Node:      basicnode.NewBytes(nil),
+		substrate: substrate,
 	}, nil
 }
